@@ -113,6 +113,13 @@ def registry_cycle_runs(ctx, replay=None):
             u, v = rng.choice(pairs)                 # v depends on u: the extra dependency v -> u closes a cycle
             out = rng.sample(list(g.nodes()), min(len(g), rng.choice([0, 1, 2])))
             workers = rng.choice([1, 2, 4])
+            if k % 2 == 1:
+                # every other case: the cycle lies strictly DOWNSTREAM of everything that has a store (two more calls at the
+                # end of the plan, requested as output) - nothing registered is an ancestor of the cycle's way out
+                n0 = len(spec["nodes"])
+                spec["nodes"].append({"id": n0, "kind": "call", "args": [n0 - 1], "deps": []})
+                spec["nodes"].append({"id": n0 + 1, "kind": "call", "args": [n0], "deps": []})
+                u, v, out = n0, n0 + 1, [n0 + 1]
         env = ce.Env()
         b = ce.build_cache(spec, env)
         for nd in spec["nodes"]:                     # sources hold something, so that nothing else can fail first
